@@ -19,10 +19,12 @@ import json,sys
 s,rc,nv=sys.argv[1:4]
 p='/verif/seeded/%s/meta.json'%s
 d=json.load(open(p))
+if d.get('annotation'): sys.exit(0)   # row and detected_by are maintained by hand (tools/annotate_rows.py)
 d['detected_by']=({'check':s.split('-')[0],'tier':'quick','exit':int(rc or -1),'violation_lines':int(nv or 0)} if rc=='1' else None)
 if rc!='1': d['missed_by']={'check':s.split('-')[0],'tier':'quick'}
 else: d.pop('missed_by',None)
 json.dump(d,open(p,'w'),indent=1)
 PY
 done
+tools/annotate_rows.py
 git -C /repo status --short
